@@ -169,40 +169,46 @@ theorem output_wellformed_partial (hc : CfgB c rc) (w h : Int) (hs : SizeOk w h)
   let R := rep_after_partial hc w h hs e0 he hw hh ops hv
   ⟨R.good.mal, R.good.st⟩
 
-/-- what the emulator grid shows for the cells Layer A's `Displays` speaks about -/
+/-- what the emulator grid shows for the cells Layer A's `Displays` speaks about: every clean unlocked cell (every cell the
+draw loop visited is one, `Displays.cleaned`); `nl` = the repaired drawCell painted a wide rune as a blank of width 1 because
+the next column is locked -/
 structure DisplaysBytes (c : DrawCfg) (rc : RenderCfg) (b : BWorld) : Prop where
-  cells : ∀ x y : Nat, b.wd.sw.s.cells.inRange x y → visited c.rw b.wd.sw.s.cells x y = true →
-    (b.wd.sw.s.cells.cells x y).lock = false →
-      ∃ st', (b.e.grid.get x y).garbage = false ∧ (b.e.grid.get x y).cont = false ∧
+  cells : ∀ x y : Nat, b.wd.sw.s.cells.inRange x y → (b.wd.sw.s.cells.cells x y).lock = false →
+    b.wd.sw.s.cells.dirty x y = false →
+      ∃ st' nl, (b.e.grid.get x y).garbage = false ∧ (b.e.grid.get x y).cont = false ∧
         (b.e.grid.get x y).runes.flatMap Utf8.encode =
-          (Scr.cellText c b.wd.sw.s.w x (obsMain c.rw (b.wd.sw.s.cells.cells x y).currMain) (b.wd.sw.s.cells.cells x y).currComb
-            (obsWidth c.rw (b.wd.sw.s.cells.cells x y).currMain)).1 ∧
+          (Scr.cellTextG c b.wd.sw.s.w x (obsMain c.rw (b.wd.sw.s.cells.cells x y).currMain) (b.wd.sw.s.cells.cells x y).currComb
+            (obsWidth c.rw (b.wd.sw.s.cells.cells x y).currMain) nl).1 ∧
         (b.e.grid.get x y).pen = penOf rc st' ∧
         ((b.wd.sw.s.cells.cells x y).currStyle ≠ {} → st' = (b.wd.sw.s.cells.cells x y).currStyle) ∧
         ((b.wd.sw.s.cells.cells x y).currStyle = {} → ∀ d', b.wd.d = some d' → st' = d') ∧
-        (shownWidth c b.wd.sw.s.w x (b.wd.sw.s.cells.cells x y).currMain (b.wd.sw.s.cells.cells x y).currComb > 1 →
+        (nl = true → obsWidth c.rw (b.wd.sw.s.cells.cells x y).currMain > 1 →
+          c.guardLocked = true ∧ b.wd.sw.s.cells.locked ((x : Int) + 1) y = true) ∧
+        ((Scr.cellTextG c b.wd.sw.s.w x (obsMain c.rw (b.wd.sw.s.cells.cells x y).currMain) (b.wd.sw.s.cells.cells x y).currComb
+            (obsWidth c.rw (b.wd.sw.s.cells.cells x y).currMain) nl).2 > 1 →
           (x : Int) + 1 < b.wd.sw.s.w → (b.e.grid.get (x + 1) y).cont = true ∧ (b.e.grid.get (x + 1) y).garbage = false)
   cursor : b.wd.sw.s.cells.inRange b.wd.sw.s.cursorx b.wd.sw.s.cursory →
     b.e.cursorKnown = true ∧ (b.e.cx : Int) = b.wd.sw.s.cursorx ∧ (b.e.cy : Int) = b.wd.sw.s.cursory ∧
     b.e.pendingWrap = false ∧ b.e.modes.cursorVisible = true
   hidden : ¬ b.wd.sw.s.cells.inRange b.wd.sw.s.cursorx b.wd.sw.s.cursory → b.e.modes.cursorVisible = false
 
-theorem displaysBytes_of (hc : CfgB c rc) {b : BWorld} (inv : WInv c b.wd) (R : Rep c rc b.e b.wd.t) (D : Displays c b.wd)
+theorem displaysBytes_of (hc : CfgB c rc) {b : BWorld} {pre : Buf} (inv : WInv c b.wd) (R : Rep c rc b.e b.wd.t)
+    (D : Displays c pre b.wd)
     (hsz : b.wd.sw.s.w = b.wd.sw.ttyw ∧ b.wd.sw.s.h = b.wd.sw.ttyh) : DisplaysBytes c rc b := by
   have hdim : ∀ x y : Int, b.wd.sw.s.cells.inRange x y → x < b.e.grid.w ∧ y < b.e.grid.h := by
     intro x y hr
     have := R.w; have := R.h; have := inv.tdim; have := inv.buf.cw; have := inv.buf.ch
     simp only [Buf.inRange_iff] at hr; omega
   refine { cells := ?_, cursor := ?_, hidden := ?_ }
-  · intro x y hr hv hl
-    obtain ⟨_, st', hg, h1, h2, h3⟩ := D.cells x y hr hv hl
+  · intro x y hr hl hdy
+    obtain ⟨st', nl, hg, h1, h2, h4, h3⟩ := D.cells x y hr hl hdy
     have hd := hdim x y hr
     have cr := R.cells x y (by omega) (by omega)
     rw [hg] at cr
-    simp only [shownOf, CellRep] at cr
-    refine ⟨st', cr.2.1, cr.1, cr.2.2.1, cr.2.2.2, h1, h2, ?_⟩
+    simp only [shownOfG, CellRep] at cr
+    refine ⟨st', nl, cr.2.1, cr.1, cr.2.2.1, cr.2.2.2, h1, h2, h4, ?_⟩
     intro hw hlt
-    have hc' := h3 hw hlt
+    have hc' := h3 _ st' (by rw [hg]; simp only [shownOfG]; rw [decide_eq_true hw]) hlt
     have hx1 : x + 1 < b.e.grid.w := by have := R.w; have := inv.tdim; omega
     have cr2 := R.cells (x + 1) y hx1 (by omega)
     have e : (((x + 1 : Nat) : Int)) = (x : Int) + 1 := by omega
@@ -268,7 +274,7 @@ theorem show_faithful_bytes_partial (hc : CfgB c rc) (w h : Int) (hs : SizeOk w 
   have R := rep_after_partial hc w h hs e0 he hw hh ops hv
   have R' := rep_step hc inv bi R .show trivial
   have inv' : WInv c (b.step c rc .show).wd := (show_step hc.rwOk hc.noCorner inv).1
-  have D : Displays c (b.step c rc .show).wd := (show_step hc.rwOk hc.noCorner inv).2 htr
+  have D := (show_step hc.rwOk hc.noCorner inv).2 htr
   exact displaysBytes_of hc inv' R' D (show_size inv)
 
 /-- **Sync is faithful at the level of bytes, from arbitrary display contents** (no trust hypothesis). -/
